@@ -30,6 +30,13 @@ Theorem C11_front_function_partial :
 Proof. exact XFrontDetProofs.front_function. Qed.
 Print Assumptions C11_front_function_partial.
 
+(* What this theorem is: a TOTALITY / FUEL theorem.  XFront.v never produces its `UB` constructor (the UB verdict is
+   unreachable in the model by construction), so the `UB _ => False` arm holds trivially; the content is `OutOfFuel`
+   never happens, hence the outcome is a function of the source bytes alone.
+   TRUSTED BASE, not proved: the real lexer calls std::isspace / isalpha / isdigit / isalnum on a plain `char`
+   (xcmp.hpp ~269, 322, 342, 346); for bytes 0x80..0xFE that is undefined in ISO C and is modelled with glibc's
+   behaviour (C locale tables indexed from -128: neither space, alpha nor digit).  A C library that indexes out of
+   bounds there could make the real lexer's result depend on memory contents; that possibility is outside the model. *)
 Theorem C11_front_no_indeterminate_partial :
   forall src : list Z,
     match XFront.front src with
